@@ -483,7 +483,7 @@ class Program:
 
     def ann_elem_class(self, m, ann):
         ann = self._unstr(ann)
-        if isinstance(ann, ast.Subscript) and ast.unparse(ann.value) in ('list', 'List', 'typing.List'):
+        if isinstance(ann, ast.Subscript) and ast.unparse(ann.value).split('.')[-1] in ('list', 'List', 'Iterable', 'Iterator', 'Sequence', 'Collection', 'tuple_of'):
             return self.ann_class(m, ann.slice)
         return None
 
